@@ -4,7 +4,15 @@
      forall (p : source), wf p -> forall fuel out res, Lang.Eval.run fuel p = (out, res) -> res <> ROFuel ->
        exists fuel', Vm.Model.execute fuel' (cprogram path p) entry = (out, vm_of res, _).
 
-   What is proved and pinned here (partial):
+   PROVED for the fragment `ok_block` (Compile/StmtFrag.v): assignment, op-assignment (+ - * / %), print, assert,
+   expression statements, if / else-if / else, while, break, continue (through any nesting of ifs), from-loops
+   with a named fresh counter (upper bound a literal or variable, literal step), over call-free expressions,
+   at ANY nesting depth and program size: C01_module_correct_partial below is the full statement above on that
+   fragment (same output lines; Done with an empty call stack, or the related run-time error after the same output
+   prefix).  NOT yet proved: function literals, calls, recursion, return; anonymous / colliding counters; general
+   bounds and steps.  Those are covered by the T1/T2/T3 correspondences on every run.
+
+   What else is proved and pinned here:
    - the structural half for EVERY emitted function that passes the certificate checker (C09):
      jumps in range, block frames balanced on every path, also through break/continue/return;
    - (see Props/C15.v) the expression fragment: compiled expression code computes the value the
@@ -12,6 +20,7 @@
    The statement-level agreement is established on every run by the correspondences T1 (compiler ==
    Compile/Compile.v), T2 (interpreter == Vm/Model.v, per instruction) and T3 (run == Lang/Eval.v). *)
 From MS Require Import Vm.Model Verify.Check Verify.Sound Compile.Compile Lang.Eval Compile.ExprBase Compile.ExprSim.
+From MS Require Import Compile.StmtMach Compile.StmtRel Compile.StmtFrag Compile.StmtSim Compile.StmtExamples.
 
 Check frames_safe.
 Theorem C01_frames_balanced_partial : forall rc p, checked p ->
@@ -50,6 +59,27 @@ Theorem C01_expressions_partial : forall path e, pure e = true -> lits_ok e = tr
   end.
 Proof. exact cexpr_correct. Qed.
 Print Assumptions C01_expressions_partial.
+
+(* THE C01 STATEMENT on the fragment: for every program of the fragment, whatever its size and nesting depth, running
+   the model compiler's output on the VM model prints exactly the lines the reference semantics prescribes and ends
+   the same way (Done with an empty call stack / the related run-time error after the same output).
+   `no_claim` = the reference semantics reports FType 13 (a from-loop counter that a body turned into a non-integer) *)
+Check module_correct.
+Theorem C01_module_correct_partial : forall (path : str) (p : list stmt),
+  ok_block false [] p = true -> ExprBase.small (length (module_code p) + 4) ->
+  forall fuel : nat, snd (run fuel p) <> ROFuel ->
+  no_claim (snd (run fuel p)) \/
+  (exists fuel' : nat,
+     fst (fst (execute fuel' (cprogram path p) (s_module_fn path))) = fst (run fuel p) /\
+     vm_outcome_ok (snd (run fuel p)) (snd (fst (execute fuel' (cprogram path p) (s_module_fn path))))).
+Proof. exact module_correct. Qed.
+Print Assumptions C01_module_correct_partial.
+(* per-block simulation with explicit code context and per-statement Hoare specifications *)
+Check cblock_correct.
+Check stmt_sim.
+(* non-vacuity of the fragment theorems: concrete nested programs (else-if chain inside a while with block locals; break /
+   continue under nested ifs and a nested while; nested from-loops with step, break, continue) *)
+Check C01_nv_stage2. Check C01_nv_stage3. Check C01_nv_stage3_from. Check C01_nv_theorem_applies. Check C01_nv_stage1_fail.
 
 (* non-vacuity: a program with `continue` inside `else` inside a stepped `from` inside a `while` inside a
    recursive function: the model compiler's output is certified, and model VM == reference semantics *)
